@@ -1183,6 +1183,31 @@ class Compiler:
             template("get = econtext.get") + \
             self.visit(node.node)
 
+    def _record_error(self, nodes):
+        """Wrap statements such that an exception passing through is
+        recorded together with the current token."""
+
+        exc = template(
+            "exc_info()[1]", exc_info=Symbol(sys.exc_info), mode="eval"
+        )
+
+        exc_handler = template(
+            "if pos is not None: rcontext.setdefault('__error__', [])."
+            "append(token + (__filename, exc, ))",
+            exc=exc,
+            token=template("__tokens[pos]", pos="__token", mode="eval"),
+            pos="__token"
+        ) + template("raise")
+
+        return [
+            ast.Try(
+                body=nodes,
+                handlers=[ast.ExceptHandler(body=exc_handler)],
+                finalbody=[],
+                orelse=[],
+            )
+        ]
+
     def visit_Macro(self, node):
         body = []
 
@@ -1215,27 +1240,8 @@ class Compiler:
                 "except: NAME = None",
                 KEY=ast.Constant(name), NAME=store(name))
 
-        exc = template(
-            "exc_info()[1]", exc_info=Symbol(sys.exc_info), mode="eval"
-        )
-
-        exc_handler = template(
-            "if pos is not None: rcontext.setdefault('__error__', [])."
-            "append(token + (__filename, exc, ))",
-            exc=exc,
-            token=template("__tokens[pos]", pos="__token", mode="eval"),
-            pos="__token"
-        ) + template("raise")
-
         # Wrap visited nodes in try-except error handler.
-        body += [
-            ast.Try(
-                body=nodes,
-                handlers=[ast.ExceptHandler(body=exc_handler)],
-                finalbody=[],
-                orelse=[],
-            )
-        ]
+        body += self._record_error(nodes)
 
         function_name = "render" if node.name is None else \
                         "render_%s" % mangle(node.name)
@@ -1791,7 +1797,11 @@ class Compiler:
 
             self._current_slot.append(slot.name)
 
-            body = self.visit_Context(slot)
+            # The filler is a function of its own: it keeps track of
+            # its own current token and records a failure like a macro
+            body = template("__token = None") + self._record_error(
+                self.visit_Context(slot) or [ast.Pass()]
+            )
 
             assert self._current_slot.pop() == slot.name
 
